@@ -1,8 +1,11 @@
 (* C03-C06 model: schema-directed encoder and decoder mirroring the code tars2go generates
-   (genWriteVar / genReadVar in gen_go.go) on top of the codec primitives. Decoding starts from a prior
-   target value exactly like the generated ReadFrom does (ResetDefault only resets members that declare a
-   default, and nested structs). Go panics (make with a negative count, fixed-array index out of range) and
-   counts that exceed the bytes left (over-allocation) are explicit outcomes. *)
+   (genWriteVar / genReadVar in gen_go.go) on top of the codec primitives, as repaired: a count read from the
+   wire is checked before it sizes an allocation or drives a loop (vector: 0 <= n <= bytes left, map:
+   0 <= n <= bytes left / 2, fixed array: 0 <= n <= N), ResetDefault assigns every member, and
+   ReadSliceInt8/Uint8 assign the target for every accepted length. Decoding starts from a prior target value
+   exactly like the generated ReadFrom does. Go panics (fixed-array index out of range) stay explicit outcomes;
+   DHuge (a count larger than the bytes left reaching make) and DPanic site_makeslice are no longer produced by
+   any function below - the pinned behaviour is kept as the _pinned definitions at the end of the file. *)
 From Coq Require Import List NArith ZArith Lia Bool Arith.
 From TarsV Require Import Gen.Consts Base.Hex Codec.Wire Codec.Skip Codec.Prim.
 Import ListNotations.
@@ -39,23 +42,16 @@ Fixpoint zero_of (fuel : nat) (e : env) (t : ty) : val :=
   | TStruct sid => VStruct (map (fun fd => zero_of f e (fty fd)) (fields_of e sid))
   end end.
 
-(* ResetDefault: members with a declared default are set to it, struct members are reset recursively,
-   everything else keeps its prior value *)
-Fixpoint reset_default (fuel : nat) (e : env) (sid : nat) (v : val) : val :=
-  match fuel with O => v | S f =>
-  match v with
-  | VStruct vs =>
-      VStruct ((fix go (fds : schema) (vs : list val) : list val :=
-                  match fds, vs with
-                  | fd :: fds', x :: vs' =>
-                      (match fdef fd with
-                       | Some d => d
-                       | None => match fty fd with TStruct s => reset_default f e s x | _ => x end
-                       end) :: go fds' vs'
-                  | _, _ => vs
-                  end) (fields_of e sid) vs)
-  | _ => v
-  end end.
+(* ResetDefault as repaired: EVERY member is assigned - its declared default, or (no default declared) the zero
+   value of its type; struct members are reset recursively. The result does not depend on what the target held. *)
+Fixpoint reset_val (fuel : nat) (e : env) (sid : nat) : val :=
+  match fuel with O => VInt 0 | S f =>
+  VStruct (map (fun fd => match fdef fd with
+                          | Some d => d
+                          | None => match fty fd with TStruct s => reset_val f e s | t => zero_of f e t end
+                          end) (fields_of e sid))
+  end.
+Definition reset_default (fuel : nat) (e : env) (sid : nat) (v : val) : val := reset_val fuel e sid.
 
 (* ---------- IEEE equality on bit patterns (Go's == / != on floats) ---------- *)
 Definition f32_nan (b : N) : bool := ((b / 8388608) mod 256 =? 255) && negb (b mod 8388608 =? 0).
@@ -158,11 +154,12 @@ Definition dec_scalar (fuel : nat) (tag : N) (req : bool) (t : ty) (prior : val)
   | _ => DErr
   end.
 
-(* ReadSliceInt8 / ReadSliceUint8 as repaired: len <= 0 leaves the target alone, len > remaining is an error *)
-Definition read_slice (n : Z) (r : list N) : option (option (list N) * list N) :=
-  if (n <=? 0)%Z then Some (None, r)
+(* ReadSliceInt8 / ReadSliceUint8 as repaired: len < 0 or len > remaining is an error, every other length
+   (0 included) assigns the target *)
+Definition read_slice (n : Z) (r : list N) : option (list N * list N) :=
+  if (n <? 0)%Z then None
   else if (Z.of_nat (length r) <? n)%Z then None
-  else Some (Some (firstn (Z.to_nat n) r), skipn (Z.to_nat n) r).
+  else Some (firstn (Z.to_nat n) r, skipn (Z.to_nat n) r).
 
 Definition bytes_val (t : ty) (s : list N) : val :=
   match t with TI8 => VBytes s | _ => VList (map (fun b => VInt (Z.of_N b)) s) end.
@@ -192,8 +189,8 @@ Fixpoint dec_var (fuel : nat) (e : env) (tag : N) (req : bool) (t : ty) (prior :
             match read_count r with
             | CErr _ => DErr
             | COk n r1 =>
-                if (n <? 0)%Z then DPanic site_makeslice
-                else if (Z.of_nat (length r1) <? n)%Z then DHuge
+                if (n <? 0)%Z then DErr
+                else if (Z.of_nat (length r1) <? n)%Z then DErr
                 else match dec_elems f e x n r1 with
                      | DOk xs r2 => DOk (list_val x xs) r2
                      | DErr => DErr | DPanic s => DPanic s | DHuge => DHuge | DFuel => DFuel
@@ -207,8 +204,7 @@ Fixpoint dec_var (fuel : nat) (e : env) (tag : N) (req : bool) (t : ty) (prior :
                   | CErr _ => DErr
                   | COk n r2 => match read_slice n r2 with
                                 | None => DErr
-                                | Some (None, r3) => DOk prior r3
-                                | Some (Some s, r3) => DOk (bytes_val x s) r3
+                                | Some (s, r3) => DOk (bytes_val x s) r3
                                 end
                   end
               | SeekFuel => DFuel
@@ -226,6 +222,7 @@ Fixpoint dec_var (fuel : nat) (e : env) (tag : N) (req : bool) (t : ty) (prior :
             match read_count r with
             | CErr _ => DErr
             | COk n r1 =>
+                if (n <? 0)%Z || (Z.of_nat len <? n)%Z then DErr else
                 match dec_arr f e x len 0 n (match prior with VList l => l | _ => [] end) r1 with
                 | DOk xs r2 => DOk (VList xs) r2
                 | DErr => DErr | DPanic s => DPanic s | DHuge => DHuge | DFuel => DFuel
@@ -240,7 +237,8 @@ Fixpoint dec_var (fuel : nat) (e : env) (tag : N) (req : bool) (t : ty) (prior :
       | Found _ r =>
           match read_count r with
           | CErr _ => DErr
-          | COk n r1 => match dec_entries f e kt vt n r1 with
+          | COk n r1 => if (n <? 0)%Z || (Z.of_nat (length r1) / 2 <? n)%Z then DErr else
+                        match dec_entries f e kt vt n r1 with
                         | DOk kvs r2 => DOk (VMap kvs) r2
                         | DErr => DErr | DPanic s => DPanic s | DHuge => DHuge | DFuel => DFuel
                         end
